@@ -17,7 +17,7 @@ int vh_poison_enabled = 1;
 
 const char * const vh_reader_names[VR__N] = { "Int32", "UInt32", "Int64", "UInt64", "Float", "Double", "Bool", "Choice",
     "Number", "Characters", "CopyText", "ArbitraryBlock", "Raw", "ArrayInt32", "ArrayUInt32", "ArrayInt64", "ArrayUInt64",
-    "ArrayFloat", "ArrayDouble", "Expr" };
+    "ArrayFloat", "ArrayDouble", "Expr", "RawChoice" };
 
 const scpi_choice_def_t vh_choices[] = { {"LOW", 1}, {"HIgh", 2}, {"MEDium", 3}, {"SOURce", 10}, SCPI_CHOICE_LIST_END };
 
@@ -213,7 +213,7 @@ static int run_step(scpi_t * context, vh_ctx_t * v, const vh_step_t * st, vh_ste
             if (ok) { r->count = *l; size_t n = *l < L ? *l : L; size_t m = n < sizeof r->raw ? n : sizeof r->raw; memcpy(r->raw, b, m); r->rawlen = (int) m; r->fullrawlen = (int) n; if (v->log_enabled) { vh_buf_printf(&v->log, " n=%zu \"", *l); vh_buf_add_escaped(&v->log, b, n); vh_buf_addc(&v->log, '"'); } }
             free(b); free(l); break;
         }
-        case VR_RAW: {
+        case VR_RAW: case VR_RAW_CHOICE: {
             scpi_parameter_t * p = (scpi_parameter_t *) malloc(sizeof *p);
             memset(p, 0xA5, sizeof *p);
             ok = SCPI_Parameter(context, p, mand);
@@ -234,7 +234,7 @@ static int run_step(scpi_t * context, vh_ctx_t * v, const vh_step_t * st, vh_ste
                                   b3 ? (long long) i64 : 0LL, b4 ? (unsigned long long) u64 : 0ULL, b5 ? fb : 0u, b6 ? (unsigned long long) db : 0ULL,
                                   (int) SCPI_ParamIsNumber(p, FALSE), (int) SCPI_ParamIsNumber(p, TRUE));
                 }
-                if (p->type == SCPI_TOKEN_PROGRAM_MNEMONIC) { scpi_bool_t bc = SCPI_ParamToChoice(context, p, vh_choices, &ch); if (v->log_enabled) vh_buf_printf(&v->log, " choice=%d:%ld", bc, bc ? (long) ch : 0L); }
+                if (st->kind == VR_RAW_CHOICE) { scpi_bool_t bc = SCPI_ParamToChoice(context, p, vh_choices, &ch); if (v->log_enabled) vh_buf_printf(&v->log, " choice=%d:%ld", bc, bc ? (long) ch : 0L); }
                 (void) eb;
             }
             free(p); break;
